@@ -7,7 +7,7 @@ from __future__ import annotations
 import ast
 import re
 
-from ..astutil import call_attr, calls_in, unparse, walk_local
+from ..astutil import dispatch_tables, call_attr, calls_in, unparse, walk_local
 from ..cfg import CFG
 from ..dataflow import resolved_text
 from ..report import Finding, Report
@@ -286,12 +286,12 @@ def check(idx: Index, rep: Report, tier: str) -> str:
     if f is None:
         raise AnalysisError("run_cmpi not found")
     cases = {}
-    for m in [n for n in walk_local(f.node) if isinstance(n, ast.Match)]:
-        for c in m.cases:
-            if isinstance(c.pattern, ast.MatchValue) and isinstance(c.pattern.value, ast.Constant):
-                rets = [s for s in c.body if isinstance(s, ast.Return)]
-                if rets:
-                    cases[c.pattern.value.value] = rets[0].value.elts[0] if isinstance(rets[0].value, ast.Tuple) else rets[0].value
+    for _s, tbl_, _d, _n in dispatch_tables(f.node):  # `match` or if-chain on the predicate number
+        for key_, body_ in tbl_.items():
+            if re.fullmatch(r"-?\d+", key_):
+                rets = [s for s in body_ if isinstance(s, ast.Return)]
+                if rets and rets[0].value is not None:
+                    cases[int(key_)] = rets[0].value.elts[0] if isinstance(rets[0].value, ast.Tuple) else rets[0].value
     cfg = CFG(f.node)
     for k, mn in enumerate(cmpi):
         inst = f"cmpi:{k}:{mn}"
@@ -326,14 +326,14 @@ def check(idx: Index, rep: Report, tier: str) -> str:
     O, U = f"not isnan({A}) and (not isnan({B}))", f"isnan({A}) or isnan({B})"
     canon_ = lambda t_: unparse(ast.parse(t_, mode="eval").body)
     fcases = {}
-    for m in [n for n in walk_local(g.node) if isinstance(n, ast.Match)]:
-        for c in m.cases:
-            if isinstance(c.pattern, ast.MatchValue) and isinstance(c.pattern.value, ast.Constant):
-                rets = [s for s in c.body if isinstance(s, ast.Return)]
-                if rets:
+    for _s, tbl_, _d, _n in dispatch_tables(g.node):
+        for key_, body_ in tbl_.items():
+            if re.fullmatch(r"-?\d+", key_):
+                rets = [s for s in body_ if isinstance(s, ast.Return)]
+                if rets and rets[0].value is not None:
                     e_ = rets[0].value.elts[0] if isinstance(rets[0].value, ast.Tuple) else rets[0].value
                     # the returned expression with the locals (operands, ordered / unordered flags) replaced by their definitions
-                    fcases[c.pattern.value.value] = canon_(resolved_text(gcfg, e_, gcfg.node_of(rets[0])))
+                    fcases[int(key_)] = canon_(resolved_text(gcfg, e_, gcfg.node_of(rets[0])))
     if not fcases:
         raise AnalysisError("run_cmpf: dispatch on the predicate not recognised")
     for k, mn in enumerate(cmpf):
